@@ -2881,12 +2881,16 @@ def transform_compressible(items, constants, labels):
 
         # check if any set of criteria is all true for this item
         compressed = None
-        for name, preds in criteria.items():
-            if label_dependent and name not in ['c.j', 'c.jal', 'c.beqz', 'c.bnez']:
-                continue
-            if all(pred(item, position, env) for pred in preds):
-                compressed = name
-                break
+        try:
+            for name, preds in criteria.items():
+                if label_dependent and name not in ['c.j', 'c.jal', 'c.beqz', 'c.bnez']:
+                    continue
+                if all(pred(item, position, env) for pred in preds):
+                    compressed = name
+                    break
+        except ValueError as e:
+            # e.g. an unknown register name: report it against the source line
+            raise AssemblerError(str(e), item.line)
 
         # swap out the instruction for its compressed counterpart
         if compressed is not None:
